@@ -131,11 +131,27 @@ func (w *world) pd(member, k int) pdpb.PDClient {
 	return pdpb.NewPDClient(cs[k%len(cs)])
 }
 
-func newWorld(r *ev.Run, round, members int) (*world, error) {
+var cfgMu sync.Mutex
+
+// newWorld starts a fresh cluster; a start-up failure (ports are allocated by listen-and-close, other
+// processes on the machine may grab them) is retried with new ports.
+func newWorld(r *ev.Run, round, members int) (w *world, err error) {
+	for try := 0; try < 3; try++ {
+		if w, err = newWorldOnce(r, round, members); err == nil {
+			return w, nil
+		}
+		r.Count("cluster_start_retries", 1)
+	}
+	return nil, err
+}
+
+func newWorldOnce(r *ev.Run, round, members int) (*world, error) {
 	w := &world{r: r, round: round}
+	cfgMu.Lock()
 	w.cfgs = srv.NewConfigs(members, func(i int, c *config.Config) {
 		c.LeaderLease = 30 // a starved process must not lose its leadership by itself
 	})
+	cfgMu.Unlock()
 	var err error
 	if members == 1 {
 		var m *srv.Member
